@@ -1077,6 +1077,7 @@ class ExecMixin(object):
         callee_ctx.bound = bound
         callee_ctx.module = fi.module if fi else (c.target.rsplit('.', 2)[0] if c.target.count('.') >= 2 else None)
         callee_ctx.implicit = 'assume'
+        callee_ctx.call_exit_cache = {}
         # requires
         if not ctx.spec:
             for i, rq in enumerate(c.requires):
